@@ -286,6 +286,56 @@ theorem addr_inj {vs : List Val} (hs : SortedAddr vs) {v w : Val} (hv : v ∈ vs
     · have := hs.1 v hv; omega
     · exact ih hs.2 hv hw
 
+theorem foldl_better_lowest (xs : List Val) : ∀ (a : Val), (∀ x ∈ xs, a.addr < x.addr) → SortedAddr xs →
+    ∀ v ∈ a :: xs, v.prio ≤ (xs.foldl better a).prio ∧
+      (v.prio = (xs.foldl better a).prio → (xs.foldl better a).addr ≤ v.addr) := by
+  induction xs with
+  | nil => intro a _ _ v hv; simp only [List.mem_singleton] at hv; subst hv; simp
+  | cons x xs ih =>
+    intro a ha hs v hv
+    simp only [SortedAddr, List.pairwise_cons] at hs
+    simp only [List.foldl_cons]
+    have hax := ha x (by simp)
+    by_cases hge : a.prio ≥ x.prio
+    · have hb : better a x = a := by
+        unfold better
+        by_cases h1 : a.prio > x.prio
+        · rw [if_pos h1]
+        · rw [if_neg h1, if_neg (by omega), if_pos hax]
+      rw [hb]
+      have IH := ih a (fun y hy => ha y (by simp [hy])) hs.2
+      simp only [List.mem_cons] at hv
+      rcases hv with rfl | rfl | hv
+      · exact IH v (by simp)
+      · have h1 := IH a (by simp)
+        refine ⟨by omega, fun he => ?_⟩
+        have := h1.2 (by omega)
+        omega
+      · exact IH v (by simp [hv])
+    · have hb : better a x = x := by
+        unfold better
+        rw [if_neg (by omega), if_pos (by omega)]
+      rw [hb]
+      have IH := ih x hs.1 hs.2
+      simp only [List.mem_cons] at hv
+      rcases hv with rfl | rfl | hv
+      · have h1 := IH x (by simp)
+        exact ⟨by omega, fun he => by omega⟩
+      · exact IH v (by simp)
+      · exact IH v (by simp [hv])
+
+/-- `getValWithMostPriority` returns a validator of maximal priority and, among those, the one
+with the lowest address. -/
+theorem most_lowest_address {vs : List Val} {m : Val} (hs : SortedAddr vs) (h : most vs = some m) :
+    ∀ v ∈ vs, v.prio ≤ m.prio ∧ (v.prio = m.prio → m.addr ≤ v.addr) := by
+  cases vs with
+  | nil => simp [most] at h
+  | cons x xs =>
+    simp only [most, Option.some.injEq] at h
+    subst h
+    simp only [SortedAddr, List.pairwise_cons] at hs
+    exact foldl_better_lowest xs x hs.1 hs.2
+
 /-- number of members with address `a` -/
 def cntAddr (a : Nat) : List Val → Int
   | [] => 0
